@@ -51,7 +51,7 @@ def enc(name):
 
 class Catalogue:
     def __init__(self, exe):
-        rc, out, err = vlib.run_driver(exe, "catalog\n")
+        rc, out, err = drive(exe, "catalog\n")
         if rc != 0:
             raise vlib.InfraError("drv_checkpoint catalog failed: " + err[-2000:])
         self.kinds = {}
@@ -233,25 +233,21 @@ def judge(ctx, cat, plan, out, crash):
             return k, "overwrite:%s" % size_relation(k, so, sn)
         return k, "overwrite:other-shape"
 
-    if crash is not None:
-        # attribute the crash to the command during which the driver died
-        ncmd = len(out) if out else 0
-        key = "crash"
-        chk = None
-        # vlib.run_items drops partial results of a crashed item; recover the command from the text
-        txt = crash
-        for c, ch in zip(plan.cmds, plan.checks):
-            if ch is not None and ("during '%s'" % c) in txt:
-                chk = ch
-        if chk and chk[0] == "write":
-            k, cl = wclass(chk[1])
-            key = "write:%s:%s:memory-error" % (k, cl)
-        elif chk and chk[0] in ("value", "absent"):
-            key = "read:memory-error"
-        ctx.violation(key, "driver aborted (sanitizer/crash): " + crash[:600], rep)
-        return "viol"
+    crash_ci = crash[0] if crash is not None else None
 
     for ci, chk in enumerate(plan.checks):
+        if ci == crash_ci:
+            # the driver died (sanitizer report, segfault) while executing this command
+            if chk is not None and chk[0] == "write":
+                k, cl = wclass(chk[1])
+                key = "write:%s:%s:memory-error" % (k, cl)
+            elif chk is not None and chk[0] in ("value", "absent"):
+                kk = bind.val(steps[chk[1]]["obs"][chk[2]][chk[3]])[0] if chk[0] == "value" else "absent"
+                key = "read:%s:memory-error" % kk
+            else:
+                key = "crash:%s" % plan.cmds[ci].split()[0]
+            ctx.violation(key, "driver aborted (sanitizer/crash): " + crash[1][:700], rep)
+            return "viol"
         if chk is None:
             continue
         res = out[ci]
@@ -354,6 +350,58 @@ def size_relation(k, so, sn):
     return "longer" if b > a else ("shorter" if b < a else "other-shape")
 
 
+def drive(exe, text, timeout=3000):
+    """vlib.run_driver, but patient while a concurrent build (another check holds the build lock) is
+    relinking the shared votca libraries the driver loads ('file too short' / rc 127)."""
+    import time
+    for attempt in range(120):
+        rc, out, err = vlib.run_driver(exe, text, timeout=timeout)
+        if rc == 127 and "error while loading shared libraries" in err and not out:
+            time.sleep(5)
+            continue
+        return rc, out, err
+    return rc, out, err
+
+
+def run_plans(exe, plans):
+    """Feed the command lists of `plans` to driver processes (bounded batches).  Returns
+    {hid: (outputs per executed command, None | (index of the command during which the driver died, text))};
+    the driver is restarted after a crash and continues with the next history."""
+    got = {}
+    pos = 0
+    while pos < len(plans):
+        sub = plans[pos:pos + BATCH]
+        lines, owner = [], []
+        for k, pl in enumerate(sub):
+            for ci, c in enumerate(pl.cmds):
+                lines.append(c)
+                owner.append((k, ci))
+        rc, out, err = drive(exe, "\n".join(lines) + "\n", timeout=3000)
+        if rc == -999:
+            raise vlib.InfraError("driver timed out in a batch starting with: %s" % sub[0].cmds)
+        per, cur = [], None
+        for ln in out.splitlines():
+            if ln.startswith("cmd "):
+                cur = []
+                per.append(cur)
+            elif cur is not None:
+                cur.append(ln)
+        complete = rc == 0 and len(per) == len(lines)
+        if not complete and not per:
+            raise vlib.InfraError("driver died before the first command (rc=%s): %s" % (rc, err[-2000:]))
+        bad_k, bad_ci = (len(sub), -1) if complete else owner[len(per) - 1]
+        for idx in range(len(per)):
+            k, ci = owner[idx]
+            if k <= bad_k:
+                got.setdefault(sub[k].hid, ([], None))[0].append(per[idx])
+        if complete:
+            pos += len(sub)
+        else:
+            got[sub[bad_k].hid] = (got[sub[bad_k].hid][0], (bad_ci, "rc=%s during '%s': %s" % (rc, sub[bad_k].cmds[bad_ci], err[-1500:])))
+            pos += bad_k + 1
+    return got
+
+
 def replay(ctx, cat, exe, hists, tag, bind_of, every_step_of=None):
     """hists: list of TLC records {h: [...]}.  bind_of(n) -> Binding."""
     plans = []
@@ -371,27 +419,19 @@ def replay(ctx, cat, exe, hists, tag, bind_of, every_step_of=None):
         chunks[pl.hid % NCHUNK].append(pl)
 
     def work(chunk):
-        # bounded batches: vlib.run_items re-sends the rest of its input after a crash
-        results, crashes = {}, {}
-        for b in range(0, len(chunk), BATCH):
-            r, c = vlib.run_items(exe, [(pl.hid, pl.cmds) for pl in chunk[b:b + BATCH]], timeout=3000)
-            results.update(r)
-            crashes.update(c)
-        return results, crashes
+        return run_plans(exe, chunk)
 
     with ThreadPoolExecutor(NCHUNK) as ex:
         outs = list(ex.map(work, chunks))
     stats = {"ok": 0, "viol": 0, "branch": 0}
-    for chunk, (results, crashes) in zip(chunks, outs):
+    nv0, nk0 = len(ctx.violations), len(ctx.known_hit)
+    for chunk, got in zip(chunks, outs):
         for pl in chunk:
             ctx.traces += 1
-            if pl.hid in crashes:
-                v = judge(ctx, cat, pl, None, crashes[pl.hid])
-            else:
-                out = results.get(pl.hid)
-                if out is None or len(out) != len(pl.cmds):
-                    raise vlib.InfraError("driver output incomplete for history %d (%s)" % (pl.hid, tag))
-                v = judge(ctx, cat, pl, out, None)
+            out, crash = got[pl.hid]
+            if crash is None and len(out) != len(pl.cmds):
+                raise vlib.InfraError("driver output incomplete for history %d (%s)" % (pl.hid, tag))
+            v = judge(ctx, cat, pl, out, crash)
             stats[v] += 1
             ctx.count(len(pl.cmds))
             for st in pl.hist["h"]:
@@ -404,6 +444,8 @@ def replay(ctx, cat, exe, hists, tag, bind_of, every_step_of=None):
         except OSError:
             pass
     vlib.log("%s: %d histories replayed (%s)" % (tag, len(plans), stats))
+    for v in ctx.violations[nv0:]:
+        vlib.log("   violation key %s" % v[0])
     return stats
 
 
@@ -445,22 +487,20 @@ def random_runs(ctx, cat, exe, nexec, nops, rng):
                 ops.append({"a": "read", "p": p, "n": n, "k": k})
         items.append((e, cmds))
         metas.append(ops)
-    chunks = [items[c::NCHUNK] for c in range(NCHUNK)]
+    class Item:
+        def __init__(self, hid, cmds):
+            self.hid, self.cmds = hid, cmds
 
-    def work(chunk):
-        results, crashes = {}, {}
-        for b in range(0, len(chunk), BATCH):
-            r, c = vlib.run_items(exe, chunk[b:b + BATCH], timeout=3000)
-            results.update(r)
-            crashes.update(c)
-        return results, crashes
-
+    chunks = [[Item(e, c) for e, c in items[k::NCHUNK]] for k in range(NCHUNK)]
     with ThreadPoolExecutor(NCHUNK) as ex:
-        outs = list(ex.map(work, chunks))
+        outs = list(ex.map(lambda ch: run_plans(exe, ch), chunks))
     results, crashes = {}, {}
-    for r, c in outs:
-        results.update(r)
-        crashes.update(c)
+    for got in outs:
+        for e, (out, crash) in got.items():
+            if crash is not None:
+                crashes[e] = crash[1]
+            else:
+                results[e] = out
     for c in range(NCHUNK):
         try:
             os.remove("%s-%d.h5" % (fname, c))
